@@ -106,7 +106,10 @@ func (p *policyRulesMergeContext) merge(policy *PolicyRules) {
 		existing, found := p.identityRules[id.Name]
 
 		if !found {
-			p.identityRules[id.Name] = id
+			// store a copy: the merged rule is updated in place below and must not
+			// alias the rule of the (possibly shared) input policy
+			merged := *id
+			p.identityRules[id.Name] = &merged
 			continue
 		}
 
@@ -124,7 +127,10 @@ func (p *policyRulesMergeContext) merge(policy *PolicyRules) {
 		existing, found := p.identityPrefixRules[id.Name]
 
 		if !found {
-			p.identityPrefixRules[id.Name] = id
+			// store a copy: the merged rule is updated in place below and must not
+			// alias the rule of the (possibly shared) input policy
+			merged := *id
+			p.identityPrefixRules[id.Name] = &merged
 			continue
 		}
 
@@ -224,7 +230,10 @@ func (p *policyRulesMergeContext) merge(policy *PolicyRules) {
 		existing, found := p.serviceRules[sp.Name]
 
 		if !found {
-			p.serviceRules[sp.Name] = sp
+			// store a copy: the merged rule is updated in place below and must not
+			// alias the rule of the (possibly shared) input policy
+			merged := *sp
+			p.serviceRules[sp.Name] = &merged
 			continue
 		}
 
@@ -242,7 +251,10 @@ func (p *policyRulesMergeContext) merge(policy *PolicyRules) {
 		existing, found := p.servicePrefixRules[sp.Name]
 
 		if !found {
-			p.servicePrefixRules[sp.Name] = sp
+			// store a copy: the merged rule is updated in place below and must not
+			// alias the rule of the (possibly shared) input policy
+			merged := *sp
+			p.servicePrefixRules[sp.Name] = &merged
 			continue
 		}
 
